@@ -19,4 +19,9 @@ MacroOK(r) ==
       [] r.form = "box_repeat_noncopy" ->
             /\ r.bevals = <<7>> /\ r.bitems = Copies(r.k, 1007) /\ r.blen = r.k
 
+\* zero-sized elements with a destructor: the array / Box holds k live elements - none of them is dropped while
+\* it is alive (in the repeat form the operand value itself may or may not be consumed: at most that one drop)
+\* and exactly k are dropped with it
+MacroZstOK(r) == /\ r.len = r.k /\ r.after = r.k
+                 /\ IF r.form = "box_repeat_zst" THEN r.while_alive \in {0, 1} ELSE r.while_alive = 0
 =============================================================================
